@@ -211,6 +211,7 @@ func (d *disconnectHandler) handleGracePeriodExpired() {
 			)...,
 		)
 
+		verifNote(d.election, "grace_demote", 0)
 		d.election.becomeFollower()
 
 		d.election.mu.RLock()
@@ -346,6 +347,7 @@ func (e *kvElection) handleReconnectVerificationFailed(err error) {
 			)...,
 		)
 
+		verifNote(e, "verify_fail", 0)
 		e.becomeFollower()
 
 		e.mu.RLock()
